@@ -55,6 +55,26 @@ fn emit(v: u64) {
     }
     unsafe { write(1, buf.as_ptr().add(i), 24 - i); }
 }
+#[inline(never)]
+fn emit_err(v: u64) {
+    t!();
+    let mut buf = [0u8; 24];
+    let mut i = 23;
+    buf[i] = b'\n';
+    let mut x = v;
+    loop {
+        i -= 1;
+        buf[i] = b'0' + (x % 10) as u8;
+        x /= 10;
+        t!();
+        if x == 0 {
+            break;
+        }
+    }
+    i -= 1;
+    buf[i] = b'E';
+    unsafe { write(2, buf.as_ptr().add(i), 24 - i); }
+}
 #[unsafe(no_mangle)] pub static mut CALLN: u64 = 0;
 #[unsafe(no_mangle)] pub static mut CALLLOG: [u64; 128] = [0; 128];
 #[inline(never)]
@@ -268,7 +288,11 @@ impl<'a> G<'a> {
                 }
                 9 if left > 30 => {
                     let a = self.atom();
-                    self.line(ind, &format!("emit({a} % 100000);"));
+                    if self.t.chance(1, 3) {
+                        self.line(ind, &format!("emit_err({a} % 100000);"));
+                    } else {
+                        self.line(ind, &format!("emit({a} % 100000);"));
+                    }
                     used += 30;
                 }
                 10 if depth > 0 && !self.in_main && self.t.chance(1, 3) => {
